@@ -141,7 +141,8 @@ def nc_case(draw):
                     dimlabels.setdefault(d, l)
                 vs.append(v)
             used += nv
-            steps.append({"k": kind, "vars": vs, "attrs": draw(st.dictionaries(attr_names, nc_attr, max_size=1)), "wmode": draw(st.sampled_from(["a", "a+"]))})
+            steps.append({"k": kind, "vars": vs, "attrs": draw(st.dictionaries(attr_names, nc_attr, max_size=1)), "wmode": draw(st.sampled_from(["a", "a+"])),
+                          "alias": draw(st.integers(0, 2)) == 0})
         elif kind in ("da_write_a", "da_write_a+", "open_set"):
             if used >= len(names):
                 continue
@@ -358,7 +359,17 @@ def run_nc(case):
                         app_ax[d_] = {"units": "appended-%s" % d_, "extra_": 1}
                 snap = core.snapshot_dataset(ds)
                 what += " Dataset(%s).write_nc(mode=%r)" % (core.jsonable([[n, s_["dims"], s_["labels"], s_["vk"]] for n, s_ in step["vars"]]), step["wmode"])
-                lib(lambda: ds.write_nc(path, mode=step["wmode"]), what=what, sig=sig)
+                if step.get("alias") and hasattr(ds, "write"):
+                    # the older spelling Dataset.write(f, mode=...) of the same call
+                    import warnings as _w
+                    def _alias():
+                        with _w.catch_warnings():
+                            _w.simplefilter("ignore")
+                            return ds.write(path, mode=step["wmode"])
+                    lib(_alias, what=what + " [Dataset.write alias]", sig=sig)
+                    cl.add("nc:dataset-append-through-write-alias")
+                else:
+                    lib(lambda: ds.write_nc(path, mode=step["wmode"]), what=what, sig=sig)
                 check(core.snapshot_dataset(ds) == snap, "in-memory-dataset-changed-by-writing", {"what": what}, sig)
                 for name, spec, arr in arrs:
                     m.add(name, spec, arr)
